@@ -133,6 +133,8 @@ class Report:
                     self.samples.append({'target': f[1], 'index': int(f[2]), 'case': f[3][:300], **({'config': config} if config else {})})
             elif f[0] == 'NOTE':
                 self.notes.append('\t'.join(f[1:]))
+                if len(f) > 1 and f[1] == 'cut':
+                    self.exhaustive = False
             elif f[0] == 'DONE':
                 done = True
         return done
